@@ -2,7 +2,7 @@
    hook) against the model's infer / infer_detailed / common / generalize / data_asg / rich_asg, compared by
    structural equality of `ty`. *)
 From Coq Require Import ZArith NArith Bool List.
-From PcoreV Require Import Model.Base Model.Ty Model.Lattice Model.Infer Model.InferHist Corr.CorrC01.
+From PcoreV Require Import Model.Base Model.Ty Model.Lattice Model.Infer Model.InferHist Model.InferAsk Corr.CorrC01.
 Import ListNotations.
 
 (* (value, observed v.PType(), observed DetailedValueType(v)) *)
@@ -34,3 +34,15 @@ Definition hist_check (o : oracle) (c : list node * list op * list ty) : bool :=
   let ops := snd (fst c) in
   wf_dag ns && forallb (op_ok ns) ops && list_eqb ty_eqb (snd (run (rx_of o) ns ops)) (snd c).
 Definition hist_mismatches (o : oracle) (cs : list (list node * list op * list ty)) : list N := failing (hist_check o) cs.
+
+(* (objects, operations incl. the questions and the asserting calls, (the types the returned objects hold at the END of
+   the history, the answers as given when last asked = at the end)): Model/InferAsk.v `qrun` against the
+   implementation; by C04_history_ask_pure `qrun` is the pure `qspec_run` *)
+Definition answer_eqb (a b : bool * bool) : bool := Bool.eqb (fst a) (fst b) && Bool.eqb (snd a) (snd b).
+Definition ask_check (o : oracle) (c : list node * list qop * (list ty * list (bool * bool))) : bool :=
+  let ns := fst (fst c) in
+  let ops := snd (fst c) in
+  let st := qrun (rx_of o) ns ops in
+  wf_dag ns && forallb (qop_ok ns) ops && list_eqb ty_eqb (snd (fst st)) (fst (snd c)) && list_eqb answer_eqb (snd st) (snd (snd c)).
+Definition ask_mismatches (o : oracle) (cs : list (list node * list qop * (list ty * list (bool * bool)))) : list N :=
+  failing (ask_check o) cs.
